@@ -476,7 +476,22 @@ mod c10 {
         session_post_recv_step(2);
     }
 
+    /// C07: the session kept only to carry the response to RemoveFabric / a rolled-back commissioning is expired,
+    /// and an expired session opens no new exchange (the same step contract, restricted to expired sessions).
+    // TIER: quick!  (twin of c10_session_post_recv for the C07 statement)
+    // KIND: bounded (expired sessions with an exchange table of <= 2 of 5 entries)
+    #[kani::proof]
+    #[kani::unwind(9)]
+    #[kani::stub(embassy_time::Instant::now, fake_now)]
+    fn c07_expired_session_opens_no_exchange() {
+        session_post_recv_step_for(2, true);
+    }
+
     fn session_post_recv_step(nmax: usize) {
+        session_post_recv_step_for(nmax, false)
+    }
+
+    fn session_post_recv_step_for(nmax: usize, only_expired: bool) {
         let n: usize = kani::any();
         kani::assume(n <= nmax);
         let slots: [SlotParams; MAX_EXCHANGES] = kani::any();
@@ -489,6 +504,7 @@ mod c10 {
         let before = obs_table(&s);
         let frame0 = frame(&s);
         let expired = s.expired;
+        kani::assume(expired || !only_expired);
         let hj: usize = kani::any();
         kani::assume(hj < MAX_EXCHANGES);
         let h0 = heavy(&s, hj);
@@ -4055,6 +4071,87 @@ mod c20 {
     #[kani::stub(crate::utils::storage::Vec::swap_remove, swap_remove_model)]
     fn c20_remove_pase_1() {
         check_remove_pase::<1>();
+    }
+
+    // ------------------------------------------------------------------------------------------------
+    // Sessions::remove_for_fabric - the REAL body (the C07 harnesses of the fail-safe work with its
+    // contract): once fabric `f` is gone no session of `f` is left except the one the answer still has
+    // to go out on, and that one is expired; every other session is untouched.
+    // ------------------------------------------------------------------------------------------------
+
+    /// `N` sessions in which only what `remove_for_fabric` reads or writes is symbolic (internal id, mode with
+    /// its fabric index, expired flag, peer node id); the other fields are those of a blank session. (With every
+    /// field symbolic - `fill_sessions` - moving two sessions inside the table exhausted 48 GB.)
+    fn fill_sessions_lean(t: &mut Sessions, n: usize) {
+        for k in 0..n {
+            let _ = t.sessions.push(super::c15::blank_session());
+            let s = &mut t.sessions[k];
+            s.id = kani::any();
+            s.mode = super::c15::any_mode();
+            s.expired = kani::any();
+            s.peer_nodeid = kani::any();
+        }
+    }
+
+    fn check_remove_for_fabric_real<const N: usize>() {
+        let mut t = Sessions::new();
+        fill_sessions_lean(&mut t, N);
+        let (len, before) = table_sig::<N>(&t);
+        let ctrs = counters_sig(&t);
+        assume_distinct_ids(&before);
+        let f = NonZeroU8::new(kani::any());
+        kani::assume(f.is_some());
+        let f = f.unwrap();
+        let keep: Option<u32> = kani::any();
+
+        let on_fabric = |s: &SessSig| s.mode.1 == f.get();
+        let survives = |s: &SessSig| !on_fabric(s) || Some(s.id) == keep;
+        let mut expected = 0usize;
+        for k in 0..N {
+            if survives(&before[k]) {
+                expected += 1;
+            }
+        }
+
+        t.remove_for_fabric(f, keep);
+
+        let (len_after, after) = table_sig::<N>(&t);
+        let j: usize = kani::any();
+        if j < len_after {
+            kani::assert(survives(&after[j]), "C07.remove_for_fabric.only_kept_session_of_the_fabric_stays");
+            kani::assert(!on_fabric(&after[j]) || after[j].expired, "C07.remove_for_fabric.kept_session_is_expired");
+        }
+        kani::assert(len_after == expected, "C07.remove_for_fabric.exactly_the_other_sessions_of_the_fabric_dropped");
+        let i: usize = kani::any();
+        kani::assume(i < len);
+        if survives(&before[i]) {
+            let mut found = false;
+            for k in 0..N {
+                if k < len_after {
+                    found |= after[k].same_except(&before[i], None, false, on_fabric(&before[i]));
+                }
+            }
+            kani::assert(found, "C07.remove_for_fabric.survivors_unchanged");
+        }
+        kani::assert(counters_sig(&t) == ctrs, "C07.remove_for_fabric.frame_allocators");
+
+        kani::cover!(len_after == 0 && len == N, "all dropped");
+        kani::cover!(len_after == 1 && on_fabric(&after[0]) && N > 1, "only the kept session of the fabric left");
+        kani::cover!(len_after == len, "no session of that fabric");
+        kani::cover!(N > 1 && len_after == 1 && on_fabric(&before[0]) && Some(before[1].id) == keep && on_fabric(&before[1]), "kept session stands above another session of the fabric");
+    }
+
+    // DOES NOT CLOSE: 48 GB exhausted with fully symbolic sessions, 14 GB with the lean table below (two 520-byte sessions moved at
+    // symbolic indices inside the 32-slot table). Kept for a bigger machine; not compiled. The real body of remove_for_fabric is
+    // therefore an ASSUMED contract of C07/C08 (listed in the evidence), and a change inside it is not detected.
+    #[cfg(verif_unclosed)]
+    // TIER: thorough
+    // KIND: bounded (table of exactly 2 of MAX_SESSIONS=32 sessions, symbolic in id / mode / fabric / expired / peer node only; Vec::swap_remove by its contract, proved in c20_vec_swap_remove_model_is_exact)
+    #[kani::proof]
+    #[kani::unwind(7)]
+    #[kani::stub(crate::utils::storage::Vec::swap_remove, swap_remove_model)]
+    fn c07_remove_for_fabric_2() {
+        check_remove_for_fabric_real::<2>();
     }
 
     // ------------------------------------------------------------------------------------------------
